@@ -326,6 +326,11 @@ class G:
                 v = [self.comparable_like(e) for e in t[: r.choice([1, 2, 3])]] or [2]
             if r.random() < 0.3 and op[0] != "r":
                 return op, [{"$aux": v}]
+            if self.tuples and r.random() < 0.15:
+                # a sequence that is not a list: never equal to a list, not ordered against one
+                scal = [x for x in v if isinstance(x, int) and not isinstance(x, bool) and 0 <= x < 256]
+                return op, [r.choice([{"$tuple": v}, {"$deque": v}, {"$range": [len(v)]},
+                                      {"$bytes": scal[:3]}])]
             return op, [v]
         return op, []
 
